@@ -22,8 +22,11 @@ def gen_events(rng):
             sep = rng.choice([None, None, '', '-', '\n', ' '])
             end = rng.choice([None, None, None, '', ' ', '\n\n', '!'])
             evs.append({'e': 'print', 'args': args, 'sep': sep, 'end': end})
-        elif k < 6:
+        elif k < 5:
             evs.append({'e': 'write', 'text': rtext(rng)})
+        elif k < 6:
+            evs.append({'e': 'writelines', 'lines': [rtext(rng, 5) + rng.choice(['\n', '', ' ']) for _ in range(rng.randrange(0, 4))],
+                        'gen': rng.random() < 0.5})
         elif k < 9:
             evs.append({'e': 'input', 'prompt': rng.choice(['', '', 'Name? ', 'x\n', '  ', rtext(rng, 4)])})
         else:
@@ -45,6 +48,8 @@ def render(evs, end, ind=''):
             lines.append('%sprint(%s)' % (ind, ', '.join(a)))
         elif e['e'] == 'write':
             lines.append('%ssys.stdout.write(%r)' % (ind, e['text']))
+        elif e['e'] == 'writelines':
+            lines.append(('%ssys.stdout.writelines(_t for _t in %r)' if e['gen'] else '%ssys.stdout.writelines(%r)') % (ind, e['lines']))
         elif e['e'] == 'input':
             lines.append('%s_v = input(%r)' % (ind, e['prompt']) if e['prompt'] != '' or True else '%s_v = input()' % ind)
         elif e['e'] == 'printnum':
@@ -68,6 +73,8 @@ def text_events(evs):
             out.append(('w', sep.join(e['args']) + end))
         elif e['e'] == 'write':
             out.append(('w', e['text']))
+        elif e['e'] == 'writelines':
+            out.append(('w', ''.join(e['lines'])))
         elif e['e'] == 'printnum':
             out.append(('w', '%d\n' % e['v']))
         else:
@@ -117,7 +124,7 @@ def gen_case(rng):
     pre = []
     if fns:
         pre = [{'op': 'exec', 'how': 'run', 'inputs': None, 'evs': [], 'end': None, 'code': '\n'.join(fns)}]
-    return {'main': '\n'.join(render(main_evs, main_end)) + '\n', 'ops': pre + ops}
+    return {'main': '\n'.join(render(main_evs, main_end)) + '\n', 'ops': pre + ops, 'real_io': rng.random() < 0.25}
 
 
 CORPUS = [
